@@ -145,13 +145,15 @@ def _driver(V, name, atoms, exch):
     return mcsim.make_driver(V, name, atoms, exchange=exch, nexch=0)
 
 
-def sc_driver(V, driver="Canonical", with_shipped=False, trials=2, effect=None):
-    info = f"{driver}:shipped={with_shipped}:effect={effect}"
+def sc_driver(V, driver="Canonical", with_shipped=False, trials=2, effect=None, cycles=1):
+    """`trials` = total number of trials; with cycles>1 they are the cycles of ONE step."""
+    info = f"{driver}:shipped={with_shipped}:effect={effect}:cycles={cycles}"
     atoms = mcsim.make_atoms(V, 2, momenta=(driver == "HamiltonianCanonical"), extras=False)
     pes = mcsim.PES(V)
     atoms.calc = mcsim.ModelCalc("caching", pes)
     exch = mcsim.exchange_species(V, 1) if driver == "GrandCanonical" else None
     mc = _driver(V, driver, atoms, exch)
+    mc.max_cycles = cycles
     mcsim.install_rng(mc, mcsim.make_rng(V))
     log = []
     mv = StrictMove(V, effect or EFFECT[driver], log)
@@ -175,11 +177,24 @@ def sc_driver(V, driver="Canonical", with_shipped=False, trials=2, effect=None):
         mc.validate_simulation()
         cells, counts = [np.array(atoms.cell.array).copy()], [len(atoms)]
         hist = []
-        for t in range(trials):
-            name, verdict = mcsim.run_trial(mc)
-            hist.append(None if verdict is None else bool(verdict))
+        if cycles == 1:
+            for t in range(trials):
+                name, verdict = mcsim.run_trial(mc)
+                hist.append(None if verdict is None else bool(verdict))
+                cells.append(np.array(atoms.cell.array).copy())
+                counts.append(len(atoms))
+        else:
+            # one step of several cycles: the generator yields before every trial
+            for _nm in mc.step():
+                if len(cells) > 1 or len(log):
+                    cells.append(np.array(atoms.cell.array).copy())
+                    counts.append(len(atoms))
             cells.append(np.array(atoms.cell.array).copy())
             counts.append(len(atoms))
+            hist = [None if v is None else bool(v) for _n, v in mc.move_history]
+            if len(hist) != trials:
+                V.fail("one-history-entry-per-cycle", info=info + f":entries={len(hist)}:cycles={trials}")
+                return
         d = mc.to_dict()
     except (symx.PathAbort, symx.BoundHit, symx.Unsupported, symx.ReplayMismatch):
         raise
@@ -253,6 +268,10 @@ def _plan(tier):
         P.append(("driver", dict(driver=d, with_shipped=(d in ("Canonical", "GrandCanonical", "Isobaric")), trials=2), ()))
     P.append(("driver", dict(driver="Isobaric", with_shipped=False, trials=2, effect="shear"), ()))
     P.append(("driver", dict(driver="Isotension", with_shipped=True, trials=2, effect="shear"), ()))
+    # several cycles inside one step (the verdict of one cycle must not leak into the next)
+    P.append(("driver", dict(driver="MonteCarlo", trials=3, cycles=3), ()))
+    P.append(("driver", dict(driver="GrandCanonical", trials=2, cycles=2), ()))
+    P.append(("driver", dict(driver="Isobaric", trials=2, cycles=2), ()))
     if tier != "quick":
         for d in ("Isobaric", "GrandCanonical", "Canonical"):
             P.append(("driver", dict(driver=d, with_shipped=False, trials=3), ()))
